@@ -139,6 +139,29 @@ Definition stop_op lg c now := type2_op lg c now T_RUNNER_STOP_COMMAND [] true.
 Definition set_position_op lg c now (position : N) := type2_op lg c now T_RUNNER_SET_POSITION [AStr (fmt_02x position)] true.
 Definition get_state2_op lg c now := type2_op lg c now T_GET_STATE_PACKET2_TYPE2 [] false.   (* frames of get_shutter/breeze_state *)
 
+(* ---- state queries ---- *)
+Definition wrap_parse {A} (r : result A) : M A :=
+  match r with
+  | Ok a => ret a
+  | Exc e => if (is_key_error e || is_value_error e)%bool then raise RuntimeError else raise e
+  end.
+(* SwitcherType2Api.get_breeze_state / _get_breeze_state *)
+Definition get_breeze_state (c : cfg) (now : N) : M (bytes * thermostat_fields) :=
+  perform l <- login c true now ;;
+  if successful (lr_response l) then
+    perform state_resp <- send_template T_GET_STATE_PACKET2_TYPE2
+      [AStr (lr_session l); AStr (lr_timestamp l); AStr (device_id c)] false ;;
+    perform r <- wrap_parse (parse_thermostat_reply state_resp) ;; ret (state_resp, r)
+  else raise RuntimeError.
+(* SwitcherType2Api.get_shutter_state *)
+Definition get_shutter_state (c : cfg) (now : N) : M (bytes * shutter_fields) :=
+  perform l <- login c true now ;;
+  if successful (lr_response l) then
+    perform state_resp <- send_template T_GET_STATE_PACKET2_TYPE2
+      [AStr (lr_session l); AStr (lr_timestamp l); AStr (device_id c)] false ;;
+    perform r <- wrap_parse (parse_shutter_reply state_resp) ;; ret (state_resp, r)
+  else raise RuntimeError.
+
 (* canonical rendering of a whole exchange for the harness: frames then outcome *)
 Definition show_exchange (x : list bytes * result bytes) : bytes :=
   let '(fs, r) := x in
